@@ -14,13 +14,17 @@ import (
 	"sort"
 	"strconv"
 	"strings"
+	"sync/atomic"
 	"syscall"
 	"time"
 
 	"verifharness/client"
+	"verifharness/clnfake"
 	"verifharness/core"
 	"verifharness/ctl"
 	"verifharness/dbwrap"
+	"verifharness/inproc"
+	"verifharness/lndfake"
 	"verifharness/lnmodel"
 	"verifharness/refcrypto"
 
@@ -29,14 +33,21 @@ import (
 	"github.com/elnosh/gonuts/cashu/nuts/nut05"
 	"github.com/elnosh/gonuts/cashu/nuts/nut07"
 	"github.com/elnosh/gonuts/mint"
+	"github.com/elnosh/gonuts/mint/lightning"
 	"github.com/elnosh/gonuts/mint/storage"
 	_ "github.com/mattn/go-sqlite3"
 )
+
+var clnSeq atomic.Int64
 
 type Opts struct {
 	FeePpk uint
 	Limits mint.MintLimits
 	MPP    bool
+	// Backend "" = the Lightning model is the mint's lightning.Client; "cln" = the mint talks
+	// to the model through gonuts' own CLN adapter and a fake CLN REST node (package clnfake);
+	// "lnd" = through gonuts' LND adapter and a fake lnd gRPC server (package lndfake)
+	Backend string
 }
 
 type Env struct {
@@ -45,6 +56,9 @@ type Env struct {
 	Hub     *ctl.Hub
 	World   *lnmodel.World
 	Node    *lnmodel.Node
+	CLN     *clnfake.Fake // set with Backend "cln"
+	LND     *lndfake.Fake // set with Backend "lnd"
+	clnHost string
 	M       *mint.Mint
 	Opts    Opts
 	Keysets map[string]*client.Keyset
@@ -83,12 +97,45 @@ func New(world *lnmodel.World, name, dir string, o Opts) (*Env, error) {
 func (e *Env) load(rotate bool, fee uint) error {
 	e.Hub = ctl.NewHub()
 	e.Node = e.World.NewNode(e.Name, e.Hub)
+	var lnClient lightning.Client = e.Node
+	if e.Opts.Backend == "cln" {
+		clnSeq.Add(1)
+		e.clnHost = fmt.Sprintf("cln-%s-%d.verif", e.Name, clnSeq.Load())
+		if e.CLN == nil {
+			e.CLN = clnfake.New(e.Node)
+		} else {
+			e.CLN.SetNode(e.Node) // the node outlives the mint process: labels and expiries stay
+		}
+		inproc.Install().Register(e.clnHost, e.CLN)
+		c, err := lightning.SetupCLNClient(lightning.CLNConfig{RestURL: "http://" + e.clnHost, Rune: "verif"})
+		if err != nil {
+			return err
+		}
+		lnClient = c
+	}
+	if e.Opts.Backend == "lnd" {
+		f, err := lndfake.Start(e.Node)
+		if err != nil {
+			return fmt.Errorf("lnd fake: %v", err)
+		}
+		if e.LND != nil {
+			for h := range e.LND.Canceled {
+				f.Cancel(h) // the node outlives the mint process
+			}
+		}
+		e.LND = f
+		c, err := lightning.SetupLndClient(f.Config())
+		if err != nil {
+			return err
+		}
+		lnClient = c
+	}
 	cfg := mint.Config{
 		RotateKeyset:    rotate,
 		MintPath:        e.Dir,
 		InputFeePpk:     fee,
 		Limits:          e.Opts.Limits,
-		LightningClient: e.Node,
+		LightningClient: lnClient,
 		EnableMPP:       e.Opts.MPP,
 		LogLevel:        mint.Disable,
 	}
@@ -130,6 +177,13 @@ func (e *Env) Close() {
 		core.Guard(func() { e.M.Shutdown() })
 		e.M = nil
 		closeLeakedFDs(e.Dir)
+	}
+	if e.clnHost != "" {
+		inproc.Install().Unregister(e.clnHost)
+		e.clnHost = ""
+	}
+	if e.LND != nil {
+		e.LND.Stop()
 	}
 }
 
